@@ -3,7 +3,7 @@ SPECIFICATION Spec
 CONSTANTS
   Devs <- NoDevs
   Space = "q1"
-  Modes = {"E", "C"}
+  Modes = {"E"}
   EmitCases = FALSE
 INVARIANTS Inv_Ctx Inv_End Inv_Conform
 CHECK_DEADLOCK FALSE
